@@ -1,5 +1,5 @@
 (** C14 — help and version requests short-circuit everything else. *)
-From MowCli Require Import Base Values Flow Cmd TreeProofs.
+From MowCli Require Import Base Values Flow Cmd TreeProofs TraceProofs.
 
 Section C14.
   Variable parse_float : str -> option str.
@@ -66,7 +66,19 @@ Section C14.
     - exact (help_index_dd pre more Hp).
     - exact (parse_cmd_help_after_dd parse_float getenv c i policy path pre more levels paths filled err Hs Hp).
   Qed.
+
+  (** The whole tree at once: for EVERY application in which no sub-command is itself named "-h" or "--help"
+      ([help_free]) and EVERY argument vector whose first help token is preceded by no "--" ([help_index] finds
+      it), Run lets no Before, no Action and no After run — whichever command the token addresses, whatever
+      stands before and after it, valid or not, whatever the policies are. (What is printed and how Run ends:
+      [C14_help], [C14_help_result].) *)
+  Theorem C14_help_runs_nothing_anywhere :
+    forall a argv,
+      help_free (a_root a) = true -> help_index argv <> None ->
+      r_trace (run parse_float getenv a argv) = [].
+  Proof. exact (run_help_runs_nothing parse_float getenv). Qed.
 End C14.
+Print Assumptions C14_help_runs_nothing_anywhere.
 Print Assumptions C14_help_after_dd_is_data.
 Print Assumptions C14_help.
 Print Assumptions C14_help_result.
